@@ -298,28 +298,34 @@ structure WInv (c sn0 : U32) (s : GSt) : Prop where
   conv  : s.k.conv = c
   bufc  : BufC c s.k.snd_buf
   wire  : ∀ o ∈ s.wire, DgOk c sn0 s.log o
+  wlen  : ∀ o ∈ s.wire, o.length ≤ mtuLimit + IKCP_OVERHEAD
   alive : s.dead = false
 
 theorem fresh_wInv (k : Kcp) (hf : Fresh k) (hm : InvMss k) : WInv k.conv k.snd_nxt { k := k } :=
-  ⟨fresh_invSG k hf, hm, rfl, by show BufC _ k.snd_buf; rw [hf.sb]; exact BufC.nil _, (fun _ ho => by cases ho), rfl⟩
+  ⟨fresh_invSG k hf, hm, rfl, by show BufC _ k.snd_buf; rw [hf.sb]; exact BufC.nil _, (fun _ ho => by cases ho),
+   (fun _ ho => by cases ho), rfl⟩
 
 /-- the shape of a flush-like step -/
 theorem wInv_flushLike {c sn0 : U32} {s : GSt} (h : WInv c sn0 s) (k' : Kcp) (outs : List Bytes)
     (hsg : InvSG sn0 { s with k := k', log := s.log ++ admitted s.k k', wire := s.wire ++ outs })
     (hm : InvMss k') (hc : k'.conv = c) (hb : BufC c k'.snd_buf)
-    (hw : ∀ o ∈ outs, DgOk c sn0 (s.log ++ admitted s.k k') o) :
+    (hw : ∀ o ∈ outs, DgOk c sn0 (s.log ++ admitted s.k k') o)
+    (hl : ∀ o ∈ outs, o.length ≤ s.k.mtu.toNat) :
     WInv c sn0 { s with k := k', log := s.log ++ admitted s.k k', wire := s.wire ++ outs } := by
-  refine ⟨hsg, hm, hc, hb, fun o ho => ?_, h.alive⟩
-  rcases List.mem_append.mp ho with h1 | h1
-  · exact (h.wire o h1).mono _
-  · exact hw o h1
+  refine ⟨hsg, hm, hc, hb, fun o ho => ?_, fun o ho => ?_, h.alive⟩
+  · rcases List.mem_append.mp ho with h1 | h1
+    · exact (h.wire o h1).mono _
+    · exact hw o h1
+  · rcases List.mem_append.mp ho with h1 | h1
+    · exact h.wlen o h1
+    · exact Nat.le_trans (hl o h1) h.mss.mtu_le
 
 theorem step_wInv {c sn0 : U32} {s : GSt} (h : WInv c sn0 s) (op : Op) : WInv c sn0 (step s op) := by
   have hsg := (step_invSG h.sg op).1
   have same : ∀ k' : Kcp, InvSG sn0 { s with k := k' } → InvMss k' → k'.conv = s.k.conv → k'.snd_buf = s.k.snd_buf →
       WInv c sn0 { s with k := k' } := by
     intro k' h1 h2 h3 h4
-    exact ⟨h1, h2, h3.trans h.conv, by show BufC c k'.snd_buf; rw [h4]; exact h.bufc, h.wire, h.alive⟩
+    exact ⟨h1, h2, h3.trans h.conv, by show BufC c k'.snd_buf; rw [h4]; exact h.bufc, h.wire, h.wlen, h.alive⟩
   unfold step at hsg ⊢
   rw [if_neg (by simp [h.alive])] at hsg ⊢
   cases op with
@@ -327,7 +333,7 @@ theorem step_wInv {c sn0 : U32} {s : GSt} (h : WInv c sn0 s) (op : Op) : WInv c 
     obtain ⟨hp, hm, _⟩ := Lemmas.KcpMss.send_ok s.k buf h.mss
     simp only [] at hsg ⊢
     rw [if_neg (by simp [hp])] at hsg ⊢
-    refine ⟨hsg, hm, ?_, ?_, h.wire, h.alive⟩
+    refine ⟨hsg, hm, ?_, ?_, h.wire, h.wlen, h.alive⟩
     · show (send s.k buf).k.conv = c
       rw [send_k]; exact h.conv
     · show BufC c (send s.k buf).k.snd_buf
@@ -340,14 +346,14 @@ theorem step_wInv {c sn0 : U32} {s : GSt} (h : WInv c sn0 s) (op : Op) : WInv c 
       rw [if_neg hn]
       have hs := recv_sndSame s.k buflen
       refine ⟨hsg, Lemmas.KcpMss.inv_of_view h.mss (Lemmas.KcpMss.recv_view s.k buflen), hs.conv.trans h.conv, ?_,
-        h.wire, h.alive⟩
+        h.wire, h.wlen, h.alive⟩
       show BufC c (recv s.k buflen).k.snd_buf
       rw [hs.snd_buf]; exact h.bufc
   | input data regular ackNoDelay now =>
     obtain ⟨hp, hne, hm, _⟩ := Lemmas.KcpMss.input_ok s.k data regular ackNoDelay now h.mss
     simp only [] at hsg ⊢
     rw [if_neg (by simp [hp])] at hsg ⊢
-    refine wInv_flushLike h _ _ hsg hm ((input_conv _ _ _ _ _).trans h.conv) ?_ ?_
+    refine wInv_flushLike h _ _ hsg hm ((input_conv _ _ _ _ _).trans h.conv) ?_ ?_ (fun o ho => (hne o ho).2)
     · -- BufC of the result
       rw [input_eq]
       split
@@ -394,12 +400,12 @@ theorem step_wInv {c sn0 : U32} {s : GSt} (h : WInv c sn0 s) (op : Op) : WInv c 
     simp only [] at hsg ⊢
     rw [if_neg (by simp [hp])] at hsg ⊢
     exact wInv_flushLike h _ _ hsg hm ((flush_keep _ _ _).conv.trans h.conv) (flush_bufC h.conv h.bufc full now)
-      (flush_dg h.sg.inv h.conv h.bufc full now hp (fun o ho => (hne o ho).1))
+      (flush_dg h.sg.inv h.conv h.bufc full now hp (fun o ho => (hne o ho).1)) (fun o ho => (hne o ho).2)
   | update now =>
     obtain ⟨hp, hne, hm, _⟩ := Lemmas.KcpMss.update_ok s.k now h.mss
     simp only [] at hsg ⊢
     rw [if_neg (by simp [hp])] at hsg ⊢
-    refine wInv_flushLike h _ _ hsg hm ((update_keep _ _).conv.trans h.conv) ?_ ?_
+    refine wInv_flushLike h _ _ hsg hm ((update_keep _ _).conv.trans h.conv) ?_ ?_ (fun o ho => (hne o ho).2)
     · rw [update_eq]
       split
       · obtain ⟨h1, h2, _, _⟩ := updPre_same s.k now (updTf s.k now)
